@@ -138,4 +138,19 @@ PROPS = {
         "shards": {"quick": 4, "thorough": 16},
         "no_panic": ["build "],
     },
+    "C20": {
+        "modules": ["Capnp.Props.C20"],
+        "gen": True,
+        "rule": "strquote: every single byte alone and between plain bytes, sample and random strings (all 65536 byte pairs in thorough) vs the "
+                "model over the regenerated needsEscape; text rendering: for the 50 struct types of the aircraftlib test schema, values drawn "
+                "from the schema (every numeric width at its boundaries, enums beyond the known enumerants, unions incl. unknown discriminants, "
+                "groups, defaults, text/data with quotes, backslashes, control and non-ASCII bytes, all list kinds, nested lists, struct lists of "
+                "older/newer element shapes) are encoded by the reference encoder and text.Marshal's output is compared (S) with an independent "
+                "renderer written from the text format; encoder history: the same value rendered 2000x on one Encoder, and a schema-heavy value "
+                "3000x (200000x thorough), must give identical output every time. Non-trivial: expected text > 10 bytes; distinct by hash.",
+        "trusted": COMMON_TRUSTED + ["go2lean translation rules (needsEscape)", "the harness's reference renderer of the text format; float formatting by strconv on both sides"],
+        "assumptions": ["pointer fields with non-null schema defaults are never left null by the generator (their default rendering is not modelled)"],
+        "shards": {"quick": 4, "thorough": 16},
+        "no_panic": ["text "],
+    },
 }
